@@ -263,10 +263,17 @@ func (p *Plugin) Execute(ctx context.Context, req any) (any, *plugins.Error) {
 		api.ExpireDeadline(ctx)
 		<-ctx.Done()
 		c.CtxErr = ctx.Err() != nil
+		// an overrun call counts as finished from the instant its context is done: the engine abandons it by design,
+		// and a plugin that is merely on its way out must not be reported as "still executing"
+		m.mu.Lock()
+		m.Inflight[key]--
+		m.mu.Unlock()
 	}
 	api.Yield("exit:" + key)
 	m.mu.Lock()
-	m.Inflight[key]--
+	if c.Verdict != VOverrun {
+		m.Inflight[key]--
+	}
 	c.Done = true
 	if m.OnExit != nil {
 		m.OnExit(in, c)
@@ -336,6 +343,7 @@ type Vault struct {
 	LastFilters []storage.Filters
 	Order       []uuid.UUID // creation order of plans
 	SeedOrder   []uuid.UUID // every object id in walk order (deterministic iteration)
+	Coarse      bool // record every non-zero instant as CoarseInstant (a clock that never visibly ticks during the run)
 	ReadUnknownEmpty bool // mimic a store whose Read of an unknown id returns an empty plan and no error
 }
 
@@ -351,7 +359,30 @@ func attemptImages(as []*workflow.Attempt) []AttemptImage {
 	return out
 }
 
+// CoarseInstant is what every recorded instant becomes in a Coarse vault.
+var CoarseInstant = time.Unix(1_700_000_000, 0).UTC()
+
+func coarse(t time.Time) time.Time {
+	if t.IsZero() {
+		return t
+	}
+	return CoarseInstant
+}
+
 func (v *Vault) write(tag string, id uuid.UUID, img Image) error {
+	if v.Coarse {
+		// a clock too coarse to tell any two instants of this run apart: every recorded time is the same instant
+		// (start == end everywhere, which "start <= end" allows); zero times stay zero
+		img.Start, img.End = coarse(img.Start), coarse(img.End)
+		if len(img.Attempts) > 0 {
+			as := make([]AttemptImage, len(img.Attempts))
+			copy(as, img.Attempts)
+			for i := range as {
+				as[i].Start, as[i].End = coarse(as[i].Start), coarse(as[i].End)
+			}
+			img.Attempts = as
+		}
+	}
 	v.mu.Lock()
 	old := v.Img[id]
 	w := Write{ID: id, Img: img}
